@@ -1,6 +1,6 @@
 CONSTANTS
   SegsA = 3
-  SegsB = 3
+  SegsB = 2
   Fam = "iri"
   Mode = "pct"
 INIT Init
